@@ -1032,6 +1032,8 @@ def mut_views(fns, src, nmax, name=None):
                     paths += 1
                     unw += kind == 'unwind'
                     if kind != 'ret':
+                        if in_source and not short.startswith(('from_mut_slice', 'try_')):
+                            ex.require(s2, z3.BoolVal(False), 'a mutable view of the whole array can panic', short)
                         continue
                     leaves = list(ptr_leaves(val))
                     for pv in leaves:
